@@ -291,7 +291,7 @@ pub fn c07(ctx: &Ctx) -> PropResult {
         stats,
         rule: format!("every string of length <= {max_len} over a {}-symbol lexical alphabet (exhaustive), random strings to 24 units, mutated repository programs; non-trivial = at least two tokens before end-of-input, or a lexical error; 24 characters that tools put into files or that belong to other scripts (U+FEFF, no-break / zero-width spaces, line / paragraph separators, NEL, VT, FF, other digits and letters, U+10FFFF) at offset 0, after and between every symbol of the alphabet and in 21 program contexts; names that begin with a keyword after every statement-ending token; for every token kind a newline / comment + newline / CR LF / blank lines after it: a terminator token exactly for the kinds the property names; digit runs around the largest double (the digits of f64::MAX, of the rounding boundary to infinity, 307 .. 1000 digits); words that become keywords only through a Unicode case mapping", LEX_ALPHABET.len()),
         exhaustive: false,
-        notes: vec![],
+        notes: vec!["round 16: a backslash before every printable character inside a string literal (and the escape-like forms of other languages) as lexical cases".into()],
     }
 }
 
